@@ -212,7 +212,8 @@ fn complex_body(voc: &Vocab, c: &Value, ind: usize, out: &mut String) {
 fn facet_tag(f: &str) -> &str {
     match f {
         "minInc" => "minInclusive",
-        "maxInc" => "maxInclusive",
+        "maxInc" | "maxIncPlus" => "maxInclusive",
+        "minLenPlus" => "minLength",
         "minExc" => "minExclusive",
         "maxExc" => "maxExclusive",
         "len" => "length",
@@ -252,6 +253,7 @@ fn item(voc: &Vocab, it: &Value, out: &mut String) {
                 let tag = facet_tag(f[0].as_str().unwrap_or(""));
                 match &f[1] {
                     Value::Null => out.push_str(&format!("      <xs:{tag}/>\n")),
+                    Value::Number(n) if f[0].as_str().is_some_and(|k| k.ends_with("Plus")) => out.push_str(&format!("      <xs:{tag} value=\"+{n}\"/>\n")),
                     Value::Number(n) => out.push_str(&format!("      <xs:{tag} value=\"{n}\"/>\n")),
                     Value::String(t) => out.push_str(&format!("      <xs:{tag} value=\"{}\"/>\n", xml_esc(&voc.text(t)))),
                     _ => {}
@@ -265,7 +267,7 @@ fn item(voc: &Vocab, it: &Value, out: &mut String) {
             if let Some(t) = it.get("ty").filter(|t| t.get("k").is_some()) {
                 out.push_str(&format!("  <xs:element name=\"{name}\" type=\"{}\"{xm}/>\n", xml_esc(&qname(voc, t))));
             } else if let Some(c) = it.get("inline").filter(|t| t.get("content").is_some()) {
-                out.push_str(&format!("  <xs:element name=\"{name}\"{xm}>\n    <xs:complexType>\n"));
+                out.push_str(&format!("  <xs:element name=\"{name}\"{xm}>\n    <xs:complexType{}>\n", xmlns_attrs(voc, c)));
                 out.push_str(&doc_el(voc, c, "      "));
                 complex_body(voc, c, 6, out);
                 out.push_str("    </xs:complexType>\n  </xs:element>\n");
